@@ -47,6 +47,11 @@ def RP_G(r):
 
 
 def one(ctx, i, rep=None):
+    with ctx.time_limit(30):
+        _one(ctx, i, rep)
+
+
+def _one(ctx, i, rep=None):
     from textx import metamodel_from_str, TextXError
     global PS
     PS = install_parse_state()
